@@ -32,6 +32,7 @@ def check(c: Check):
     clause_c(c)
     clause_d(c)
     clause_e(c)
+    clause_g(c)
     clause_f(c)
     from .common import sweep_records
     sweep_records(c, 'C14-rec', ['exactly_lib.type_val_prims.string_source', 'exactly_lib.impls.types.string_source'], floor=2)
@@ -155,8 +156,8 @@ def clause_a(c: Check):
     h = ix.try_lookup('exactly_lib.util.str_.read_lines:split_lines__keep_ends')
     if isinstance(h, FuncDef):
         splits = [n for n in ast.walk(h.node) if isinstance(n, ast.Call) and isinstance(n.func, ast.Attribute)
-                  and n.func.attr in ('split', 'splitlines', 'partition', 'rsplit')]
-        ok = len(splits) >= 1 and all(s.func.attr == 'split' and len(s.args) == 1 and isinstance(s.args[0], ast.Constant)
+                  and n.func.attr in ('split', 'splitlines', 'partition', 'rpartition', 'rsplit', 'find', 'index', 'rfind')]
+        ok = len(splits) >= 1 and all(s.func.attr != 'splitlines' and len(s.args) >= 1 and isinstance(s.args[0], ast.Constant)
                                       and s.args[0].value == '\n' for s in splits)
         c.expect(ok, 'C14-a', 'split_lines__keep_ends/newline-only', 'the line splitter does not split at "\\n" only',
                  h.loc())
@@ -413,7 +414,7 @@ def clause_f(c: Check):
     text = StrCat([Sym('text')])
     n = 0
     for p in it.run_function(f, {f.positional_params()[0].arg: text}):
-        if p.kind != 'return':
+        if p.kind not in ('return', 'normal') or p.truncated:
             continue
         n += 1
         c.count()
@@ -424,7 +425,7 @@ def clause_f(c: Check):
         elif isinstance(v, Sym) and v.origin and v.origin[0] == 'comp':
             elems.append(('an element of the comprehension', v.origin[2]))
         else:
-            c.require(isinstance(v, Sym), 'C14-f: result of the splitter not understood (%s)' % util.describe(v))
+            c.require(isinstance(v, Sym) or f.is_generator, 'C14-f: result of the splitter not understood (%s)' % util.describe(v))
         for e in p.calls():
             if isinstance(e.node.func, ast.Attribute) and e.node.func.attr in ('append', 'insert', 'extend'):
                 cv = e.data.get('callee_val')
@@ -435,7 +436,11 @@ def clause_f(c: Check):
                     for a in e.data['args'][-1:]:
                         elems.append(('the value given to %s' % e.node.func.attr, a))
         facts = {id(x): True for e in p.trace if e.kind == 'str-nonempty' for x in e.data}
+        if f.is_generator:
+            elems += [('a yielded value', e.data) for e in p.trace if e.kind == 'yield']
         for what, x in elems:
+            c.require(isinstance(x, (K, StrCat)) or (isinstance(x, Sym) and x.truth is not None),
+                      'C14-f: %s of the line splitter is not understood (%s)' % (what, util.describe(x)))
             ok = surely_nonempty(x) or (isinstance(x, StrCat) and any(facts.get(id(q)) for q in x.parts))
             guards = [('' if t else 'not ') + unparse(g) for g, t in p.guards]
             c.expect(ok, 'C14-f', 'split_lines__keep_ends/no-empty-line/%s' % ('+'.join(guards) or 'unconditional'),
@@ -443,3 +448,66 @@ def clause_f(c: Check):
                      'gets an empty line that the same text read from a file does not have' % (', '.join(guards), what),
                      f.loc())
     c.floor('C14-f', 'returning paths of the in-memory line splitter', n, 2)
+
+
+# ---------------------------------------------------------------- g
+ONE_SHOT_CONSTRUCTORS = ('itertools.chain', 'itertools.chain.from_iterable', 'builtins.map', 'builtins.filter',
+                         'builtins.zip', 'builtins.iter', 'builtins.reversed', 'builtins.enumerate')
+
+
+def _one_shot_stores(ix: Index, m):
+    """[(function, assignment node, what)]: an attribute is assigned a one-shot iterator - a generator expression,
+    the call of a generator function, or of map / filter / zip / iter / chain / enumerate / reversed"""
+    out = []
+    for x in ast.walk(m.tree):
+        if not (isinstance(x, ast.Assign) and any(isinstance(tg, ast.Attribute) for tg in x.targets)):
+            continue
+        f = m.enclosing_func(x)
+        v = util.resolve_temp(f, x.value) if f is not None else x.value
+        what = None
+        if isinstance(v, ast.GeneratorExp):
+            what = 'a generator expression'
+        elif isinstance(v, ast.Call):
+            try:
+                d = ix.callee(m, f, v)
+            except Exception:
+                d = None
+            if isinstance(d, FuncDef) and d.is_generator and not d.decorators:
+                what = 'the generator %s(..)' % d.name
+            elif isinstance(d, External) and d.dotted in ONE_SHOT_CONSTRUCTORS:
+                what = '%s(..)' % d.dotted.split('.', 1)[1]
+        if what:
+            out.append((f, x, what))
+    return out
+
+
+def clause_g(c: Check):
+    """a text can be read any number of times, by any number of readers: nothing that can be traversed only once - a
+    generator, map / filter / zip / chain object - is kept in an attribute (an attribute outlives the one traversal;
+    the second reader of a cached `as_lines` would see an empty text). Whole-tree sweep; on the pinned tree no
+    attribute anywhere is assigned a one-shot iterator, a fixture keeps the rule honest."""
+    ix = c.ix
+    n_mod = 0
+    found = 0
+    for name in ix.all_module_names():
+        if 'self.' not in ix.text(name):
+            continue
+        m = ix.module(name)
+        n_mod += 1
+        for f, x, what in _one_shot_stores(ix, m):
+            found += 1
+            c.bad('C14-g', 'one-shot-iterator-kept/%s/%s' % (f.key if f else name, unparse(x.targets[0])),
+                  '%s is assigned %s: it can be traversed once, but the attribute is there for every later reader - the '
+                  'second one gets nothing (a text that has lines for the first matcher has none for the next)' % (
+                      unparse(x.targets[0]), what), '%s:%d' % (m.relpath, x.lineno))
+    c.floor('C14-g', 'modules scanned for one-shot iterators kept in attributes', n_mod, 500)
+    if not found:
+        c.ok('C14-g', 'no-one-shot-iterator-kept-in-an-attribute', detail='%d modules' % n_mod)
+    import os
+    from ..report import VERIF_ROOT
+    fx = Index(os.path.join(VERIF_ROOT, 'fixtures', 'evaluators'))
+    fm = fx.module('exactly_lib.impls.fixture_one_shot')
+    got = _one_shot_stores(fx, fm)
+    want = sum(1 for line in fm.src.splitlines() if '# EXPECT one-shot' in line)
+    if len(got) != want:
+        raise AnalysisError('C14-g: positive control failed: %d stores reported in the fixture, expected %d' % (len(got), want))
